@@ -335,3 +335,30 @@ func H_C18_rule_lists() {
 	}
 	vReach("end")
 }
+
+// the same rule list reaches Var through RM.Set (one rule per argument) and the other carriers through a
+// tag-like text: lists in which one rule's text occurs inside another's (ints/int, le=100/le=10,
+// year2month/year, a message mentioning a rule name)
+func H_C18_rule_lists_contained() {
+	lists := [][]string{{"ints", "int"}, {"le=100", "le=10"}, {"year2month", "year"}, {"ge=2|min 2 and int", "int"}, {"in=(ab/abc)", "in=(ab)"}}
+	rules := lists[vndChoice("list", len(lists))]
+	joined := strings.Join(rules, ",")
+	v := []string{"abc", "12", "2020-01", "1,2", "x"}[vndChoice("v", 5)]
+	want := vCountClauses(Struct(&vC18S{F: v}, RM{"F": joined}))
+	tag := "C18 rule list " + joined
+	switch vndChoice("carrier", 4) {
+	case 0:
+		vAssert(vCountClauses(Var(v, rules...)) == want, tag+": Var, one rule per argument")
+	case 1:
+		vAssert(vCountClauses(Struct(&vC18S{F: v}, NewRule().Set("F", rules...))) == want, tag+": struct field, rule map built with Set")
+	case 2:
+		rm := NewRule()
+		for _, r := range rules {
+			rm.Set("k", r)
+		}
+		vAssert(vCountClauses(Map(map[string]string{"k": v}, rm)) == want, tag+": map entry, one Set call per rule")
+	case 3:
+		vAssert(vCountClauses(Url("h?k="+vPctEncode(v), NewRule().Set("k", rules...))) == want, tag+": URL parameter")
+	}
+	vReach("end")
+}
